@@ -419,7 +419,7 @@ impl Checker for C14Checker {
                 self.ever_faulted = true;
                 s.probe("fault_applied");
             }
-            EnvEvent::Repair { path } => {
+            EnvEvent::Repair { path, .. } => {
                 self.outstanding.retain(|o| &o.path != path);
                 self.last_repair = "repair".into();
             }
@@ -504,6 +504,9 @@ pub enum RepairMode {
     R1CheckAll,
     /// set_rules_dir re-pointed to a pristine mount
     R2Repoint,
+    /// CheckRuleFiles=All, the file restored from a backup that keeps its OLD modification time (cp -p, rsync -t, an
+    /// installer): the mtime moves backwards, to what it was before the fault
+    R3RestoreOldMtime,
 }
 
 #[derive(Serialize, Deserialize, Clone, Debug)]
@@ -599,18 +602,18 @@ fn case_trace_inner(case: &Case) -> Trace {
     let e_plain = 2usize;
     let fault = Step::Env(EnvEvent::Fault { path: case.file.clone(), kind: case.kind.clone() });
     let repair_dir = match case.mode {
-        RepairMode::R1CheckAll => MOUNT_A,
+        RepairMode::R1CheckAll | RepairMode::R3RestoreOldMtime => MOUNT_A,
         RepairMode::R2Repoint => MOUNT_B,
     };
     let check = match case.mode {
-        RepairMode::R1CheckAll => "All",
+        RepairMode::R1CheckAll | RepairMode::R3RestoreOldMtime => "All",
         RepairMode::R2Repoint => "Prefs",
     };
     let repair = |steps: &mut Vec<Step>, target: &Config| {
         steps.push(clock(1500));
         match case.mode {
-            RepairMode::R1CheckAll => {
-                steps.push(Step::Env(EnvEvent::Repair { path: case.file.clone() }));
+            RepairMode::R1CheckAll | RepairMode::R3RestoreOldMtime => {
+                steps.push(Step::Env(EnvEvent::Repair { path: case.file.clone(), keep_mtime: case.mode == RepairMode::R3RestoreOldMtime }));
                 // one call lets the session notice the repaired prefs.yaml (it re-reads it, which drops preferences
                 // set through the API: known finding KF-prefs-reread, shown by its own directed scenario under C12);
                 // the application then re-applies its configuration. MathCAT resolves file *locations* only in
@@ -721,7 +724,7 @@ pub fn zipped_directed() -> Vec<Trace> {
                     s.push(expect_equal_step("base", "back"));
                 }
                 s.push(clock(1500));
-                s.push(Step::Env(EnvEvent::Repair { path: zip.clone() }));
+                s.push(Step::Env(EnvEvent::Repair { path: zip.clone(), keep_mtime: false }));
                 s.push(Step::Check { kind: "settle".into(), args: json!({}) });
                 s.push(ensure_step(MOUNT_A, &other, "All", true));
                 s.push(probe_step("after", 2));
@@ -758,8 +761,17 @@ pub fn enumerate(ctx: &Arc<ExecCtx>, n_configs: usize, all_params: bool) -> Resu
         // the configuration to switch into: the next one in the list (its private files are the candidates)
         let other = configs[(ci + 1) % configs.len()].clone();
         let other_files: Vec<String> = reachable[&key(&other)].iter().filter(|f| !files.contains(f)).cloned().collect();
-        for mode in [RepairMode::R1CheckAll, RepairMode::R2Repoint] {
+        for mode in [RepairMode::R1CheckAll, RepairMode::R2Repoint, RepairMode::R3RestoreOldMtime] {
+            let r3 = mode == RepairMode::R3RestoreOldMtime;
             for kind in &kinds {
+                if r3 && matches!(kind, FaultKind::Deleted) {
+                    continue; // a path fault: the application initialises again anyway (see repair())
+                }
+                // quick tier: the first configuration, the kinds that can load (the session then holds the time stamp of the
+                // faulted file, which is LATER than the restored one) and two representatives of those that cannot
+                if r3 && !all_params && (ci != 0 || !matches!(kind, FaultKind::TruncEntries(_) | FaultKind::TruncBytes(_) | FaultKind::ExtraRuleKey(_) | FaultKind::AsciiFlip(_) | FaultKind::Empty | FaultKind::WrongTopType)) {
+                    continue;
+                }
                 for file in files {
                     let pristine = ctx.base.files.get(file.strip_prefix(MOUNT_A).unwrap_or(file).trim_start_matches('/'));
                     let applicable = match kind {
@@ -770,6 +782,9 @@ pub fn enumerate(ctx: &Arc<ExecCtx>, n_configs: usize, all_params: bool) -> Resu
                         continue;
                     }
                     for phase in [Phase::Cold, Phase::Warm] {
+                        if r3 && phase == Phase::Cold {
+                            continue; // nothing was loaded before the fault: same as R1
+                        }
                         cases.push(Case { config: cfg.clone(), other: None, file: file.clone(), kind: kind.clone(), phase, mode: mode.clone() });
                     }
                     if file.ends_with("unicode-full.yaml") {
@@ -786,6 +801,9 @@ pub fn enumerate(ctx: &Arc<ExecCtx>, n_configs: usize, all_params: bool) -> Resu
                         continue;
                     }
                     for phase in [Phase::SwitchInto, Phase::SwitchBackOut, Phase::SwitchTouchBack] {
+                        if r3 && phase != Phase::SwitchInto {
+                            continue;
+                        }
                         cases.push(Case { config: cfg.clone(), other: Some(other.clone()), file: file.clone(), kind: kind.clone(), phase, mode: mode.clone() });
                     }
                 }
@@ -819,6 +837,9 @@ pub fn enumerate(ctx: &Arc<ExecCtx>, n_configs: usize, all_params: bool) -> Resu
                 }
             }
             for d in dirs {
+                if r3 {
+                    break;
+                }
                 for kind in [FaultKind::DirMissing, FaultKind::DirIsFile] {
                     for phase in [Phase::Cold, Phase::Warm] {
                         cases.push(Case { config: cfg.clone(), other: None, file: d.clone(), kind: kind.clone(), phase, mode: mode.clone() });
@@ -909,7 +930,8 @@ pub fn random_trace(seed: u64, ctx: &Arc<ExecCtx>, reachable: &BTreeMap<String, 
                 if !faulted.is_empty() {
                     let i = rng.below(faulted.len());
                     let p = faulted.remove(i);
-                    s.push(Step::Env(EnvEvent::Repair { path: p }));
+                    // one repair in five is a restore from a backup with the old time stamp
+                    s.push(Step::Env(EnvEvent::Repair { path: p, keep_mtime: rng.chance(0.2) }));
                 }
             }
             4 => {
